@@ -16,5 +16,5 @@ CONSTANTS
   Nauth1 = 48
   Nauth2 = 256
   Nauth5 = 64
-  Enforce = {"returned-tokens-keep-their-value", "quiet", "model-verdict", "listed-mutation-rejected", "count", "token-layout", "token-verifies-under-pinned-key", "unknown-event"}
+  Enforce = {"retry-returns-valid-tokens", "returned-tokens-keep-their-value", "quiet", "model-verdict", "listed-mutation-rejected", "count", "token-layout", "token-verifies-under-pinned-key", "unknown-event"}
 CHECK_DEADLOCK FALSE
